@@ -88,6 +88,9 @@ void harness (void)
         if (am && !am_dies)
         {
             VH_CHECK ("unref.last.alpha_map_lost_exactly_one_reference", am->common.ref_count == m.ref - 1);
+            /* the map's use count goes down with the reference (fix: commit 66ced33); everything else is untouched */
+            VH_CHECK ("unref.last.alpha_map_use_count_decremented", am->common.alpha_count == m.acount - 1);
+            mbefore.copy.common.alpha_count = am->common.alpha_count;
             VH_CHECK ("unref.last.alpha_map_otherwise_untouched",
                       ih_common_equal (&am->common, &mbefore.copy.common, 1, 0) && ih_specific_equal (am, &mbefore.copy));
             VH_CHECK ("unref.last.alpha_map_callback_not_run", ih_cb2_calls == 0);
